@@ -2,27 +2,38 @@
    compose/graph_run.go (runner.run, isStream = true) can end, over the run-loop model of
    Model/StreamRun.v.
 
-   One CALL of runner.run is a SEGMENT: the passes of its main loop, each a batch of completed tasks
-   (the START pseudo task first in the first call).  A segment ends
+   One CALL of runner.run is the pass of the START pseudo task (first call only) followed by the
+   passes of its main loop, each a batch of completed tasks.  A call ends
      - with END in the ready map of calculateNextTasks (graph_run.go:251, :340)              [SDone]
-     - with an interrupt: after calculateNextTasks a new task is an interrupt-before node or a
-       completed task an interrupt-after node (graph_run.go:257, :344-387): the run waits for every
-       task still running (tm.waitAll: eager mode only), calculates the next tasks once more —
-       which may reach END: the run then returns the result and the interrupt is forgotten (:379) —
-       and leaves through handleInterrupt: checkPointer.convertCheckPoint concatenates (drains and
-       closes) every stream stored in a channel and every input of the tasks about to start  [SInt]
+     - with an interrupt of the graph: after calculateNextTasks a new task is an interrupt-before
+       node or a completed task an interrupt-after node (graph_run.go:257, :344-387): the run waits
+       for every task still running (tm.waitAll: eager mode only), calculates the next tasks once
+       more — which may reach END: the run then returns the result and the interrupt is forgotten
+       (:379) — and leaves through handleInterrupt                                            [SInt]
+     - with an interrupt of a task: a completed task returned InterruptAndRerun or is a nested
+       graph that was interrupted itself (:296-328 in the first round, :351-372 in the second): the
+       other completed tasks are resolved into the channels (no getFromReadyChannels), the
+       interrupted tasks stay pending with an empty stream as their input
+       (handleInterruptWithSubGraphAndRerunNodes)                                             [SInt]
+   In both interrupt exits checkPointer.convertCheckPoint concatenates (drains and closes) every
+   stream stored in a channel and every input of the pending tasks.
    The next call with the same checkpoint id restores the checkpoint (restoreCheckPoint: every stored
    value becomes a fresh one-chunk stream; loadChannels; restoreTasks: the pending tasks get fresh
    input streams), closes the input it was called with (56b8ed6) and continues with the main loop.
 
-   The interrupt configuration (interruptBeforeNodes / interruptAfterNodes), the graph, the
-   segments and the branch outcomes are the inputs; whether a pass interrupts is computed.
-   Executable definitions only. *)
+   The interrupt configuration (interruptBeforeNodes / interruptAfterNodes), the graph, the passes of
+   every call with the tasks that interrupted themselves, and the branch outcomes are the inputs;
+   whether and how a pass interrupts is computed.  Executable definitions only. *)
 From Eino Require Import Base.Util Model.StreamAcct Model.StreamRun.
 Open Scope N_scope.
 
 Record icfg := { i_before : list key; i_after : list key }.
 Definition icfg0 : icfg := {| i_before := []; i_after := [] |}.
+
+(* one call of runner.run as the task-manager trace shows it: the batches wait() / waitAll() returned,
+   and which of the collected tasks ended with an interrupt of their own (InterruptAndRerun, or a
+   nested graph that was interrupted) *)
+Record seg := { sg_b : list batch; sg_rr : list key }.
 
 (* getHitKey(nextTasks, r.interruptBeforeNodes) is not empty *)
 Definition hit_before (cfg : icfg) (ready : list (key * handle)) : bool :=
@@ -34,7 +45,8 @@ Definition hit_after (cfg : icfg) (b : batch) : bool :=
 Inductive sout :=
 | SRunning (st : rstate)                                             (* the schedule ends before the call returns *)
 | SDone (out : handle) (dropped : list (key * handle)) (st : rstate) (* the call returns the output stream *)
-| SInt (ready : list (key * handle)) (st : rstate).                  (* the call leaves through handleInterrupt *)
+| SInt (ready : list (key * handle)) (rr : list key) (st : rstate).  (* the call leaves through an interrupt exit:
+                                                                        inputs of the tasks about to start, tasks to rerun *)
 
 Definition not_end (kh : key * handle) : bool := negb (N.eqb (fst kh) kEND).
 
@@ -43,51 +55,77 @@ Definition fits_all (b : batch) (inflight : list key) : bool :=
   let ks := map fst b in
   nodup_keys ks && forallb (fun k => memb k inflight) ks && Nat.eqb (List.length ks) (List.length inflight).
 
+(* the completed tasks that interrupted themselves / the others *)
+Definition reruns_of (rr : list key) (b : batch) : list key := filter (fun k => memb k rr) (map fst b).
+Definition others_of (rr : list key) (b : batch) : batch := filter (fun ko => negb (memb (fst ko) rr)) b.
+
 Inductive pout := PNext (st : rstate) | PEnd (o : sout).
 
-(* one pass: calculateNextTasks(completedTasks) and what follows it.  [first]: the pass of the START
-   pseudo task (graph_run.go:243-259: only the interrupt-before test, no second round);
-   [rest]: the passes recorded after this one in the same call — when the pass interrupts they are the
-   tasks collected by waitAll *)
-Definition pass (g : graph) (cfg : icfg) (first : bool) (b : batch) (rest : list batch) (st : rstate) : res pout :=
+(* the pass of the START pseudo task (graph_run.go:243-259): only the interrupt-before test, no second round *)
+Definition first_pass (g : graph) (cfg : icfg) (b : batch) (st : rstate) : res pout :=
   do r <- calc_next g b st;
   let '(ready1, st4) := r in
   match nlist_get kEND ready1 with
-  | Some out =>
-      match rest with
-      | [] => Ok (PEnd (SDone out (filter not_end ready1) st4))
-      | _ :: _ => Err E_BAD_SCHEDULE
-      end
+  | Some out => Ok (PEnd (SDone out (filter not_end ready1) st4))
   | None =>
-      if first then
-        if hit_before cfg ready1 then
-          match rest with [] => Ok (PEnd (SInt ready1 st4)) | _ :: _ => Err E_BAD_SCHEDULE end
-        else
-          do s <- consume_all (map snd ready1) (rs_store st4);
-          Ok (PNext (set_store st4 s))
-      else if hit_before cfg ready1 || hit_after cfg b then
-        let b2 := List.concat rest in
-        if negb (fits_all b2 (remove_keys (map fst ready1) (rs_pending st4))) then Err E_BAD_SCHEDULE else
-        do r2 <- calc_body g b2 st4;
-        let '(ready2, st5) := r2 in
-        match nlist_get kEND ready2 with
-        | Some out => Ok (PEnd (SDone out (ready1 ++ filter not_end ready2) st5))
-        | None => Ok (PEnd (SInt (ready1 ++ ready2) st5))
-        end
+      if hit_before cfg ready1 then Ok (PEnd (SInt ready1 [] st4))
       else
-        (* createTasks / tm.submit: every ready value is handed to its node *)
         do s <- consume_all (map snd ready1) (rs_store st4);
         Ok (PNext (set_store st4 s))
   end.
 
+(* one pass of the main loop.  [rest]: the batches recorded after this one in the same call — when the
+   pass interrupts they are the tasks collected by waitAll; [rr]: the tasks of this call that
+   interrupted themselves *)
+Definition pass (g : graph) (cfg : icfg) (rr : list key) (b : batch) (rest : list batch) (st : rstate) : res pout :=
+  let b2 := List.concat rest in
+  match reruns_of rr b with
+  | _ :: _ =>
+      (* graph_run.go:301-328: waitAll, then handleInterruptWithSubGraphAndRerunNodes *)
+      if negb (batch_fits g b (rs_pending st)) then Err E_BAD_SCHEDULE else
+      if negb (fits_all b2 (remove_keys (map fst b) (rs_pending st))) then Err E_BAD_SCHEDULE else
+      do st' <- resolve_phases g (others_of rr (b ++ b2)) st;
+      Ok (PEnd (SInt [] (reruns_of rr (b ++ b2)) st'))
+  | [] =>
+      do r <- calc_next g b st;
+      let '(ready1, st4) := r in
+      match nlist_get kEND ready1 with
+      | Some out =>
+          match rest with
+          | [] => Ok (PEnd (SDone out (filter not_end ready1) st4))
+          | _ :: _ => Err E_BAD_SCHEDULE
+          end
+      | None =>
+          if hit_before cfg ready1 || hit_after cfg b then
+            if negb (fits_all b2 (remove_keys (map fst ready1) (rs_pending st4))) then Err E_BAD_SCHEDULE else
+            match reruns_of rr b2 with
+            | _ :: _ =>
+                (* :351-372: the tasks created by the first round stay pending with their inputs *)
+                do st5 <- resolve_phases g (others_of rr b2) st4;
+                Ok (PEnd (SInt ready1 (reruns_of rr b2) st5))
+            | [] =>
+                do r2 <- calc_body g b2 st4;
+                let '(ready2, st5) := r2 in
+                match nlist_get kEND ready2 with
+                | Some out => Ok (PEnd (SDone out (ready1 ++ filter not_end ready2) st5))
+                | None => Ok (PEnd (SInt (ready1 ++ ready2) [] st5))
+                end
+            end
+          else
+            (* createTasks / tm.submit: every ready value is handed to its node *)
+            do s <- consume_all (map snd ready1) (rs_store st4);
+            Ok (PNext (set_store st4 s))
+      end
+  end.
+
 (* the main loop of one call *)
-Fixpoint seg_loop (g : graph) (cfg : icfg) (first : bool) (bs : list batch) (st : rstate) : res sout :=
+Fixpoint seg_loop (g : graph) (cfg : icfg) (rr : list key) (bs : list batch) (st : rstate) : res sout :=
   match bs with
   | [] => Ok (SRunning st)
   | b :: rest =>
-      do p <- pass g cfg first b rest st;
+      do p <- pass g cfg rr b rest st;
       match p with
-      | PNext st' => seg_loop g cfg false rest st'
+      | PNext st' => seg_loop g cfg rr rest st'
       | PEnd o => Ok o
       end
   end.
@@ -119,38 +157,88 @@ Definition log_interrupt (drains : nat) (l : rlog) : rlog :=
 (* restoreCheckPoint on the channels: the k-th stored value comes back as the k-th fresh stream *)
 Definition restore_store (base : N) (n : nat) (s : store) : store :=
   {| s_next := base + N.of_nat n; s_open := s_open s ++ fresh_handles base n; s_log := s_log s;
-     s_hist := map HFresh (fresh_handles base n) ++ s_hist s |}.
+     s_hist := map HFresh (rev (fresh_handles base n)) ++ s_hist s |}.
 
-(* handleInterrupt -> convertCheckPoint; the call returns the interrupt; the next call:
-   restoreCheckPoint, loadChannels, restoreTasks (the inputs of the pending tasks are fresh streams
-   handed to the tasks at once), the ignored input of the call is closed *)
-Definition suspend_resume (g : graph) (ready : list (key * handle)) (st : rstate) : res rstate :=
+(* the interrupt exit: the tasks to rerun get an empty stream as their input (inputEmptyStream),
+   convertCheckPoint concatenates every stored stream and every input; the call returns the interrupt;
+   the next call: restoreCheckPoint, loadChannels, restoreTasks (the inputs of the pending tasks are
+   fresh streams handed to the tasks at once), the ignored input of the call is closed *)
+Definition suspend_resume (g : graph) (ready : list (key * handle)) (rr : list key) (st : rstate) : res rstate :=
   let hs := held g st in
   do s <- checkpoint_drain g ready st;
-  let base := s_next s in
-  let s1 := restore_store base (List.length hs) s in
-  do s2 <- fresh_taken_n (List.length ready + 1) s1;
+  do s0 <- fresh_taken_n (List.length rr) s;
+  let base := s_next s0 in
+  let s1 := restore_store base (List.length hs) s0 in
+  do s2 <- fresh_taken_n (List.length ready + List.length rr + 1) s1;
   Ok {| rs_store := s2;
         rs_chans := fun x => map_vals (fun h => base + index_of h hs) (rs_chans st x);
         rs_pending := rs_pending st; rs_resolved := rs_resolved st;
-        rs_log := log_interrupt (List.length hs + List.length ready) (rs_log st) |}.
+        rs_log := log_interrupt (List.length hs + List.length ready + List.length rr) (rs_log st) |}.
 
 (* ------------------------------------------------------------------ the calls of one run *)
-Fixpoint run_segs (g : graph) (cfg : icfg) (first : bool) (segs : list (list batch)) (st : rstate) : res sout :=
-  match segs with
-  | [] => Ok (SRunning st)
-  | bs :: more =>
-      do o <- seg_loop g cfg first bs st;
-      match more with
-      | [] => Ok o
-      | _ :: _ =>
+(* the calls that follow an interrupted one: [st] is the state the next call starts its main loop in.
+   Returns how the run ended, the number of calls made and the calls that were not used *)
+Fixpoint calls (g : graph) (cfg : icfg) (tms : list seg) (n : nat) (st : rstate) : res (sout * nat * list seg) :=
+  match tms with
+  | [] => Ok (SRunning st, n, [])
+  | tm :: more =>
+      do o <- seg_loop g cfg (sg_rr tm) (sg_b tm) st;
+      match o with
+      | SInt ready rr st5 =>
+          match more with
+          | [] => Ok (o, S n, [])
+          | _ :: _ => do st6 <- suspend_resume g ready rr st5; calls g cfg more (S n) st6
+          end
+      | _ => Ok (o, S n, more)
+      end
+  end.
+
+(* one run: the pass of START's pseudo task [start], then the calls [tms].  A first call that ends in
+   that pass (END reached, or an interrupt-before node among the first tasks) has no task-manager
+   trace: the first of [tms] is then the next call *)
+Definition run_one (g : graph) (cfg : icfg) (start : batch) (tms : list seg) : res (sout * nat * list seg) :=
+  do st0 <- init_state g;
+  do p <- first_pass g cfg start st0;
+  match p with
+  | PEnd (SInt ready rr st5) =>
+      match tms with
+      | [] => Ok (SInt ready rr st5, 1%nat, [])
+      | _ :: _ => do st6 <- suspend_resume g ready rr st5; calls g cfg tms 1%nat st6
+      end
+  | PEnd o => Ok (o, 1%nat, tms)
+  | PNext st' =>
+      match tms with
+      | [] => Ok (SRunning st', 1%nat, [])
+      | tm :: more =>
+          do o <- seg_loop g cfg (sg_rr tm) (sg_b tm) st';
           match o with
-          | SInt ready st5 => do st6 <- suspend_resume g ready st5; run_segs g cfg false more st6
-          | _ => Err E_BAD_SCHEDULE
+          | SInt ready rr st5 =>
+              match more with
+              | [] => Ok (o, 1%nat, [])
+              | _ :: _ => do st6 <- suspend_resume g ready rr st5; calls g cfg more 1%nat st6
+              end
+          | _ => Ok (o, 1%nat, more)
           end
       end
   end.
 
-(* segs = the calls in order; the first one starts with START's pseudo task *)
-Definition run_int (g : graph) (cfg : icfg) (segs : list (list batch)) : res sout :=
-  do st <- init_state g; run_segs g cfg true segs st.
+(* the run of the top-level graph: every recorded call belongs to it *)
+Definition run_int (g : graph) (cfg : icfg) (start : batch) (tms : list seg) : res sout :=
+  do r <- run_one g cfg start tms;
+  let '(o, _, unused) := r in
+  match unused with
+  | [] => Ok o
+  | _ :: _ => Err E_BAD_SCHEDULE
+  end.
+
+(* the successive runs of a nested graph (one per execution of its node): run k starts with the k-th
+   START pass and takes the calls it needs from the recorded ones *)
+Fixpoint run_many (g : graph) (cfg : icfg) (starts : list batch) (tms : list seg) : res (list (sout * nat)) :=
+  match starts with
+  | [] => match tms with [] => Ok [] | _ :: _ => Err E_BAD_SCHEDULE end
+  | s :: starts' =>
+      do r <- run_one g cfg s tms;
+      let '(o, n, unused) := r in
+      do l <- run_many g cfg starts' unused;
+      Ok ((o, n) :: l)
+  end.
